@@ -19,6 +19,7 @@ func init() {
 			ruleRingModulus(c, r, "", "enc")
 			ruleDeepCopy(c, r, "")
 			ruleOpSiblings(c, r, "")
+			ruleCodecSiblings(c, r, "")
 			ruleBudgetFresh(c, r, "")
 			ruleLookahead(c, r, "")
 			cone := c.Cone(nonNilFns(c.Func("lzma", "Writer2.Write"), c.Func("lzma", "Writer2.Flush"), c.Func("lzma", "Writer2.Close"),
